@@ -52,7 +52,14 @@ RULE = ('metainfo objects = valid torrents from the C05 grammar turned into Pyth
         'dump(validate=False), write_stream(), write() in a random order with repeats; every state (also one that an export '
         'itself produced by changing the metainfo) is judged against the specification and compared with the model, which '
         'carries the stored hash through the history. non-trivial history = some state was written and another one was not '
-        'or has a different stored-hash status; distinct = (history seed, profile of its states)')
+        'or has a different stored-hash status; distinct = (history seed, profile of its states)' + '. '
+        'Edits also happen IN PLACE at every nesting depth: one step (append / insert / item assignment / pop / del / reverse / '
+        'sort / extend / clear on lists; set / del / update / setdefault / clear / reorder on dicts; str <-> bytes swap) on a '
+        'container chosen among ALL lists / dicts inside the metainfo (file entries, their path lists, extra fields, outside info, '
+        'inside tuples), aliasing (one object at two positions) and fork (t = t.copy(), the untouched original is watched). '
+        'First stream, additionally: write() of every document in 4 of 26 worlds where the OS refuses or takes fewer bytes '
+        '(real RLIMIT_FSIZE = k around the size of dump(), injected ENOSPC after k bytes / EIO at close / EACCES at open, '
+        'symlink to /dev/full, existing file without overwrite)')
 
 def _m_magnet_restores_name(case, observed, finding):
     """D06a, as narrow as the defect: a history case; the state was reached because magnet() / str(magnet()) itself added
@@ -76,7 +83,7 @@ MATCHERS = {'magnet_restores_name': _m_magnet_restores_name}
 def ekind(e):
     n = type(e).__name__
     return {'MetainfoError': 'metainfo', 'BdecodeError': 'bdecode', 'ReadError': 'read',
-            'ValueError': 'value', 'MagnetError': 'magnet'}.get(n, 'internal:' + n)
+            'ValueError': 'value', 'MagnetError': 'magnet', 'WriteError': 'write'}.get(n, 'internal:' + n)
 
 
 # ------------------------------------------------------------------ case encoding (replayable JSON)
@@ -252,7 +259,7 @@ def gen_cases(ctx, n_docs):
                 continue
             tgt[key] = rpy(r, 0, bad)
         validate = r.random() < 0.85
-        cases.append({'m': enc(m), 'validate': validate, 'kind': kind})
+        cases.append({'m': enc(m), 'validate': validate, 'kind': kind, 'worlds': r.sample(WORLDS, 4)})
     return cases
 
 
@@ -334,6 +341,94 @@ def written_variants(t, V, content):
     return out
 
 
+# ------------------------------------------------------------------ write() when the operating system takes fewer bytes than offered
+# A world = what is at the path + how the OS answers (C17's Write.Target / Write.Env: "the opened file accepts k bytes").
+# k is given relative to the size n of dump(): ['abs', k] | ['frac', f] -> int(n * f) | ['rel', d] -> n + d.
+# fsize: a real RLIMIT_FSIZE = k in this worker process with SIGXFSZ ignored (write(2) takes the bytes up to the limit and
+#   returns a short count, the next one fails with EFBIG) - independent of how the code opens and writes the file;
+# inject-*: open() of the target path is patched (as harness/props/c17.py does): the file object raises ENOSPC after k bytes,
+#   EIO at close(), or open() itself raises; devfull: the path is a symlink to /dev/full (every write(2) fails with ENOSPC).
+WORLDS = ([{'w': 'fsize', 'k': k, 'old': old} for k in (['abs', 0], ['abs', 1], ['frac', 0.5], ['rel', -1], ['rel', 0], ['rel', 10])
+           for old in (None, 'longer')] +
+          [{'w': 'inject-write', 'k': k, 'old': old} for k in (['abs', 0], ['frac', 0.5], ['rel', -1]) for old in (None, 'longer')] +
+          [{'w': 'inject-close', 'old': None}, {'w': 'inject-close', 'old': 'longer'}, {'w': 'inject-open', 'old': None},
+           {'w': 'devfull'}, {'w': 'exists-no-overwrite', 'old': 'longer'}, {'w': 'exists-no-overwrite', 'old': 'shorter'}])
+DEFAULT_WORLDS = [{'w': 'fsize', 'k': ['frac', 0.5], 'old': None}, {'w': 'fsize', 'k': ['rel', -1], 'old': 'longer'},
+                  {'w': 'fsize', 'k': ['rel', 0], 'old': None}, {'w': 'inject-close', 'old': None},
+                  {'w': 'exists-no-overwrite', 'old': 'longer'}]
+
+
+def _world_k(w, n):
+    kind, v = w['k']
+    return max(0, v if kind == 'abs' else int(n * v) if kind == 'frac' else n + v)
+
+
+def _world_old(w, n):
+    return {None: None, 'longer': b'z' * (n + 23), 'shorter': b'old'}[w.get('old')]
+
+
+def faulty_worlds(t, V, content, worlds):
+    """Torrent.write() in every given world: [outcome, what the path holds afterwards (hex | None = nothing | 'special')]"""
+    from harness.props import c17 as _c17
+    n = len(content) if content is not None else 50              # content: the bytes dump() returned (None: it raised)
+    out = []
+    for wi, w in enumerate(worlds):
+        _SEQ[0] += 1
+        path = os.path.join(common.worker_dir(), 'c06w-%d-%d.torrent' % (os.getpid(), _SEQ[0]))
+        old = _world_old(w, n) if w['w'] != 'devfull' else None
+        try:
+            if w['w'] == 'devfull':
+                os.symlink('/dev/full', path)
+            elif old is not None:
+                with open(path, 'wb') as fh:
+                    fh.write(old)
+            ov = w['w'] != 'exists-no-overwrite'
+            k = _world_k(w, n) if 'k' in w else None
+            fault = {'inject-write': {'kind': 'write', 'k': k}, 'inject-close': {'kind': 'close'},
+                     'inject-open': {'kind': 'open', 'errno': 'EACCES'}}.get(w['w'])
+            with _c17._PatchedOpen(path, fault), _c17._FsizeLimit(k if w['w'] == 'fsize' else None):
+                res = _attempt(lambda: t.write(path, validate=V, overwrite=ov))
+            if w['w'] == 'devfull':
+                after = 'special'
+            elif os.path.exists(path):
+                with open(path, 'rb') as fh:
+                    after = fh.read().hex()
+            else:
+                after = None
+        finally:
+            if os.path.lexists(path):
+                os.unlink(path)
+        out.append({'result': {'ok': None} if 'ok' in res else res, 'after': after, 'k': k,
+                    'old': None if old is None else old.hex()})
+    return out
+
+
+def _world_model_req(w, o):
+    """the world as Write.Target / Write.Env of the model"""
+    req = {'ov': w['w'] != 'exists-no-overwrite', 'existsAns': o['old'] is not None or w['w'] == 'devfull'}
+    req['kind'] = 'other' if w['w'] == 'devfull' else 'file' if o['old'] is not None else 'absent'
+    if o['old'] is not None:
+        req['node'] = o['old']
+    if w['w'] in ('fsize', 'inject-write'):
+        req['quota'] = o['k']
+    if w['w'] == 'devfull':
+        req['quota'] = 0
+    if w['w'] == 'inject-close':
+        req['closeErr'] = True
+    if w['w'] == 'inject-open':
+        req['openErr'] = True
+    return req
+
+
+def _world_name(w, o):
+    if w['w'] == 'fsize':
+        return 'RLIMIT_FSIZE = %d bytes (SIGXFSZ ignored), path %s' % (o['k'], 'holds a longer file' if o['old'] else 'is new')
+    if w['w'] == 'inject-write':
+        return 'the opened file raises ENOSPC after %d bytes, path %s' % (o['k'], 'holds a longer file' if o['old'] else 'is new')
+    return {'inject-close': 'close() of the opened file raises EIO', 'inject-open': 'open() raises EACCES',
+            'devfull': 'the path is a symlink to /dev/full', 'exists-no-overwrite': 'the path holds a file, overwrite=False'}[w['w']]
+
+
 def _run_chunk(cases):
     torf = common.import_torf()
     out = []
@@ -363,6 +458,7 @@ def _run_chunk(cases):
         obs['write_stream'] = _attempt(ws)
         if 'ok' in d:
             obs['written'] = written_variants(t, V, d['ok'])
+        obs['worlds'] = faulty_worlds(t, V, d.get('ok'), c.get('worlds', DEFAULT_WORLDS))
         obs['infohash'] = _attempt(lambda: t.infohash)
         obs['b32'] = _attempt(lambda: t.infohash_base32.decode('ascii'))
         obs['xt'] = _attempt(lambda: t.magnet().xt)
@@ -388,7 +484,7 @@ def evaluate(ctx, drv, cases):
     hash_reqs = []
     hash_idx = {}
     for i, (c, o, m) in enumerate(zip(cases, obs_all, replies)):
-        case = {'m': c['m'], 'validate': c['validate'], 'kind': c['kind']}
+        case = {'m': c['m'], 'validate': c['validate'], 'kind': c['kind'], 'worlds': c.get('worlds', DEFAULT_WORLDS)}
         dumped = 'ok' in o['dump']
         feats = set(o['feats'])
         nontrivial = dumped and c['validate'] and bool(feats)
@@ -478,6 +574,7 @@ def evaluate(ctx, drv, cases):
             hash_reqs.append({'op': 'c06.hash', 'digest': hashlib.sha1(bytes.fromhex(mib['ok'])).hexdigest()})
         elif mib != o['infohash']:
             ctx.corr_break('c06.export/infohash', case, mib, o['infohash'])
+    evaluate_worlds(ctx, drv, cases, obs_all)
     # digest renderings
     r = ctx.rng
     extra = [bytes(r.randrange(256) for _ in range(20)) for _ in range(ctx.n(200, 5000))]
@@ -506,6 +603,63 @@ def evaluate(ctx, drv, cases):
         ctx.case(kind='b32-stdlib')
         if br['enc'] != base64.b32encode(x).decode() or br['dec'] != x.hex():
             ctx.corr_break('c06.b32', {'x': x.hex()}, br, base64.b32encode(x).decode())
+
+
+def evaluate_worlds(ctx, drv, cases, obs_all):
+    """write() in worlds where the OS refuses or takes only part of the bytes: a normal return means the file holds exactly
+    dump()'s bytes (hence the info span whose SHA-1 is the infohash); anything else is WriteError (MetainfoError with the path
+    untouched if dump() fails).  Implementation vs specification, model vs specification, implementation vs model."""
+    idx = [i for i, o in enumerate(obs_all) if o.get('worlds')]
+    reqs = []
+    for i in idx:
+        c, o = cases[i], obs_all[i]
+        ws = c.get('worlds', DEFAULT_WORLDS)
+        reqs.append({'op': 'c06.write', 'm': o['mjson'], 'vok': o['vok'], 'validate': c['validate'],
+                     'worlds': [_world_model_req(w, wo) for w, wo in zip(ws, o['worlds'])]})
+    for i, rep_ in zip(idx, _drv_par(drv, reqs)):
+        c, o = cases[i], obs_all[i]
+        ws = c.get('worlds', DEFAULT_WORLDS)
+        case = {'m': c['m'], 'validate': c['validate'], 'kind': c['kind'], 'worlds': ws}
+        dump = o['dump']
+        for w, wo, wm in zip(ws, o['worlds'], rep_['worlds']):
+            name = _world_name(w, wo)
+            res = wo['result']
+            ctx.dist['write-world/%s/%s' % (w['w'], 'ok' if 'ok' in res else res['err'])] += 1
+            ctx.case(kind='write-world/' + w['w'])
+            bad = None
+            if 'ok' in res:
+                if 'ok' not in dump:
+                    bad = ('write() returned normally although dump() raises', dump)
+                elif wo['after'] != 'special' and wo['after'] != dump['ok']:
+                    a = wo['after']
+                    bad = ('write() returned normally but the file does not hold the bytes of dump(): %s - the info dictionary '
+                           'whose SHA-1 is the infohash is not in the written file'
+                           % ('no file' if a is None else 'the first %d of %d bytes' % (len(a) // 2, len(dump['ok']) // 2)
+                              if dump['ok'].startswith(a) else 'other content (%d bytes)' % (len(a) // 2)),
+                           {'file': _short(a, 200), 'dump': _short(dump['ok'], 200), 'infohash': o['infohash'],
+                            'strict parser on the file': _diagnose({'ok': a} if a is not None else {'err': 'no file'})})
+            elif 'ok' in dump and res['err'] != 'write':
+                bad = ('write() raised something else than WriteError although dump() succeeds', res)
+            elif 'ok' not in dump and (res['err'] not in ('metainfo', 'write') or (wo['after'] != 'special' and wo['after'] != wo['old'])):
+                # (WriteError is admissible: without overwrite an existing path is refused before dump() is even called;
+                #  which of the two it is, is pinned by the comparison with the model below)
+                bad = ('dump() raises MetainfoError: write() must raise MetainfoError / WriteError and leave the path as it was',
+                       {'result': res, 'before': _short(wo['old'], 80), 'after': _short(wo['after'], 80)})
+            if bad:
+                ctx.violation(bad[0] + ' [world: %s]' % name, dict(case, world=w), 'write() returns normally => the file holds '
+                              'exactly dump() (theorems C06_write_exact_or_error, C06_written_file); otherwise WriteError '
+                              '(C06_write_short_is_error)', bad[1], finding_matchers=MATCHERS)
+                break
+            if rep_['hyp'] and not wm['specOk']:
+                ctx.machinery_error('model write() returns normally without the dump in the file (contradicts '
+                                    'C06_write_exact_or_error)', dict(case, world=w))
+                break
+            if rep_['hyp'] and wm['result'] != res:
+                ctx.corr_break('c06.write/result', dict(case, world=w), {'world': name, 'model': wm['result']}, res)
+                break
+            if rep_['hyp'] and 'ok' in res and wo['after'] != 'special' and wm['after'] != wo['after']:
+                ctx.corr_break('c06.write/file', dict(case, world=w), _short(wm['after'], 200), _short(wo['after'], 200))
+                break
 
 
 # ------------------------------------------------------------------ exotic values, several exports of ONE torrent
@@ -894,6 +1048,15 @@ def _gen_edit(r):
     return ['generate', {'single': r.random() < 0.3, 'files': files, 'tag': r.randrange(256)}]
 
 
+def _inplace_edit(r, where=None):
+    where = where or r.choice(['path', 'path', 'files', 'info', 'info', 'info', 'top', 'any'])
+    return ['inplace', {'where': where, 'pick': r.randrange(1000), 'act': r.randrange(1000), 'val': r.randrange(1000)}]
+
+
+def _alias_edit(r):
+    return ['alias', {'pick': r.randrange(1000), 'dst': r.choice(['info', 'info', 'top', 'path'])}]
+
+
 def _complete_edit(r, ndocs):
     return [r.choice(['sync-info', 'sync-info', 'assign-info', 'assign-metainfo', 'update-info']), r.randrange(ndocs)]
 
@@ -930,14 +1093,31 @@ def history_cases(ctx, n):
             plan = [[_complete_edit(r, 2)], [r.choice(INVALIDATE)], [_complete_edit(r, 2)], [r.choice(ATTRS)]]
         elif k < 0.45:      # metainfo assigned, attribute changes, invalid, other metainfo
             plan = [[['assign-metainfo', 0]], [r.choice(ATTRS), r.choice(ATTRS)], [r.choice(INVALIDATE)], [['assign-info', 1]]]
-        elif k < 0.62:      # path + generate(), content changes on disk, generate() again
+        elif k < 0.55:      # edits IN PLACE inside nested values, aliasing, fork - between reads of the hash
+            start = r.choice([[_complete_edit(r, 2)], [['assign-metainfo', r.randrange(2)]], [_gen_edit(r)]])
+            start[0:0] = []
+            plan = [start + [['nest', r.choice(['info', 'info', 'top'])]]]
+            for _ in range(r.randint(2, 5)):
+                q = r.random()
+                if q < 0.6:
+                    plan.append([_inplace_edit(r) for _ in range(r.choice([1, 1, 2]))])
+                elif q < 0.75:
+                    plan.append([_alias_edit(r), _inplace_edit(r)][:r.choice([1, 2])])
+                elif q < 0.85:
+                    plan.append([['fork'], _inplace_edit(r)])
+                elif q < 0.93:
+                    plan.append([r.choice(ATTRS)])
+                else:
+                    plan.append([_inplace_edit(r, 'path')])
+        elif k < 0.68:      # path + generate(), content changes on disk, generate() again
             plan = [[_gen_edit(r)], [r.choice(ATTRS)], [r.choice([['touch-content'], ['path-none'], r.choice(INVALIDATE)])],
                     [r.choice([['regenerate'], _gen_edit(r), _complete_edit(r, 2)])]]
         else:
             plan = []
             for _ in range(r.randint(1, 6)):
-                pool = r.choice([INVALIDATE, REPAIR, ATTRS, None, None])
-                plan.append([r.choice(pool) if pool else r.choice([_complete_edit(r, 2), _complete_edit(r, 2), _gen_edit(r)])
+                pool = r.choice([INVALIDATE, REPAIR, ATTRS, None, None, 'inplace'])
+                plan.append([_inplace_edit(r) if pool == 'inplace' else r.choice(pool) if pool
+                             else r.choice([_complete_edit(r, 2), _complete_edit(r, 2), _gen_edit(r)])
                              for _ in range(r.choice([1, 1, 2]))])
         plan = plan[:r.randint(max(1, len(plan) - 2), len(plan))]
         if r.random() < 0.03:
@@ -960,12 +1140,161 @@ class _NoMagnet(Exception):
     pass
 
 
+# ---- edits IN PLACE at any nesting depth: the top-level value of info / metainfo stays the same object, something inside
+# it changes (list item assignment, append / insert / pop / del / reverse / sort / extend / clear on nested lists, item
+# set / del / update / reorder inside nested dicts, path components of file entries, str <-> bytes swaps of equal encoding),
+# aliasing (ONE list / dict object placed at a second position, so that an edit through one shows at both) and fork
+# (`other = t; t = t.copy()`: the history goes on with the copy, the original must keep exporting what it exported).
+NESTED = [['a', 'b'], {'k': ['v', 1], 'm': {'deep': [b'x']}}, [{'in-list': 'd'}]]
+VALS = ['renamed', 'n\xe9w', b'raw', 7, True, ['in', 'ner'], {'k': 'v'}, 'zz', b'\xff', 0, None]
+STRS = ['renamed', 'n\xe9w', 'README.txt', 'zz', 'sub dir']
+NEWKEYS = ['zz-new', '\xe9', '', 'a-first']
+
+
+def _containers(md):
+    """every list / dict strictly inside the metainfo - not the metainfo dict and not info itself - with the path that leads
+    to it, depth first in insertion order; an object reachable twice (aliasing) is listed at each position, entered once"""
+    out, seen = [], set()
+
+    def walk(v, path):
+        for k, x in (list(v.items()) if isinstance(v, dict) else list(enumerate(v))):
+            if isinstance(x, (list, dict)):
+                if not (path == () and k == 'info'):
+                    out.append((path + (k,), x))
+                if id(x) not in seen:
+                    seen.add(id(x))
+                    walk(x, path + (k,))
+            elif isinstance(x, tuple):
+                walk(x, path + (k,))              # immutable itself, but it may hold mutable containers
+    walk(md, ())
+    return out
+
+
+def _select(md, where):
+    cs = _containers(md)
+    flt = {'path': lambda p, x: isinstance(x, list) and len(p) == 4 and p[:2] == ('info', 'files') and p[3] == 'path',
+           'files': lambda p, x: p[:2] == ('info', 'files') and len(p) <= 3,
+           'info': lambda p, x: p[0] == 'info', 'top': lambda p, x: p[0] != 'info', 'any': lambda p, x: True}[where]
+    return [(p, x) for p, x in cs if flt(p, x)]
+
+
+def _swap_type(v):
+    """the same bencoding, another Python value: str <-> bytes"""
+    if isinstance(v, str):
+        return v.encode('utf8')
+    if isinstance(v, bytes):
+        try:
+            return v.decode('utf8')
+        except UnicodeDecodeError:
+            return v
+    if isinstance(v, bool):
+        return int(v)
+    return v
+
+
+def _inplace(md, spec):
+    """one in-place mutation of a nested container; returns a description (for the report); raises if refused"""
+    cands = _select(md, spec['where']) or _select(md, 'info')
+    if not cands:
+        raise LookupError('no nested container')
+    path, x = cands[spec['pick'] % len(cands)]
+    strs_only = spec['where'] == 'path'
+    v = (STRS if strs_only else VALS)[spec['val'] % len(STRS if strs_only else VALS)]
+    v = __import__('copy').deepcopy(v)
+    i = spec['val'] % len(x) if len(x) else 0
+    if isinstance(x, list):
+        acts = ['append', 'insert0', 'setitem', 'pop', 'del0', 'reverse', 'sort', 'swap-type', 'extend', 'grow-str', 'clear',
+                'setitem', 'append', 'setitem']
+        a = acts[spec['act'] % len(acts)]
+        if a in ('setitem', 'pop', 'del0', 'swap-type', 'grow-str') and not x:
+            a = 'append'
+        if a == 'append':
+            x.append(v)
+        elif a == 'insert0':
+            x.insert(0, v)
+        elif a == 'setitem':
+            x[i] = v
+        elif a == 'pop':
+            x.pop()
+        elif a == 'del0':
+            del x[0]
+        elif a == 'reverse':
+            x.reverse()
+        elif a == 'sort':
+            x.sort()
+        elif a == 'swap-type':
+            x[i] = _swap_type(x[i])
+        elif a == 'extend':
+            x.extend([v, 'tail'])
+        elif a == 'grow-str':
+            x[i] = x[i] + ('x' if isinstance(x[i], str) else b'x' if isinstance(x[i], bytes) else 1 if isinstance(x[i], int) else [])
+        elif a == 'clear':
+            x.clear()
+    else:
+        acts = ['set-new', 'set-existing', 'del', 'swap-type', 'update', 'reorder', 'setdefault', 'clear', 'set-existing', 'set-new']
+        a = acts[spec['act'] % len(acts)]
+        keys = list(x)
+        if a in ('set-existing', 'del', 'swap-type', 'reorder') and not keys:
+            a = 'set-new'
+        k = keys[spec['val'] % len(keys)] if keys else None
+        nk = NEWKEYS[spec['pick'] % len(NEWKEYS)]
+        if a == 'set-new':
+            x[nk] = v
+        elif a == 'set-existing':
+            x[k] = v
+        elif a == 'del':
+            del x[k]
+        elif a == 'swap-type':
+            x[k] = _swap_type(x[k])
+        elif a == 'update':
+            x.update({nk: v, 'u2': 2})
+        elif a == 'reorder':
+            x[k] = x.pop(k)                       # same items, other insertion order: the bencoding must not change
+        elif a == 'setdefault':
+            x.setdefault(nk, v)
+        elif a == 'clear':
+            x.clear()
+    return 'metainfo%s: %s' % (''.join('[%r]' % (q,) for q in path), a)
+
+
+def _alias(md, spec):
+    """place an existing nested list / dict OBJECT at a second position (never inside itself: the new positions are keys of
+    info / of the metainfo, or - for a path list - the path of another file entry)"""
+    if spec['dst'] == 'path':
+        paths = _select(md, 'path')
+        if len(paths) < 2:
+            raise LookupError('fewer than two file entries')
+        (p1, x), (p2, _) = paths[spec['pick'] % len(paths)], paths[(spec['pick'] + 1) % len(paths)]
+        md['info']['files'][p2[2]]['path'] = x
+        return 'metainfo%s = metainfo%s   # the same list object' % (''.join('[%r]' % (q,) for q in p2), ''.join('[%r]' % (q,) for q in p1))
+    cands = [(p, x) for p, x in _select(md, 'any') if p[-1] not in ('x-alias',)]
+    if not cands:
+        raise LookupError('no nested container')
+    p, x = cands[spec['pick'] % len(cands)]
+    (md['info'] if spec['dst'] == 'info' else md)['x-alias'] = x
+    return "metainfo%s['x-alias'] = metainfo%s   # the same object" % ("['info']" if spec['dst'] == 'info' else '', ''.join('[%r]' % (q,) for q in p))
+
+
 def _apply_edit(torf, t, e, docs, env):
     """one edit of the history; returns the object the history continues on"""
     import copy as _copy
     op = e[0]
     if op == 'copy':
         return t.copy()
+    if op == 'fork':
+        # the history goes on with the copy; the original is not touched any more and must keep exporting what it exports now
+        env['other'] = {'obj': t, 'dump_nv': _attempt(lambda: t.dump(validate=False).hex()), 'mjson': pyval.to_json(plain(t.metainfo))}
+        return t.copy()
+    if op == 'inplace':
+        env['log'].append(_inplace(t.metainfo, e[1]))
+        return t
+    if op == 'alias':
+        env['log'].append(_alias(t.metainfo, e[1]))
+        return t
+    if op == 'nest':
+        # a fresh nested structure as an extra field (a top-level ASSIGNMENT; later edits go inside it, in place)
+        (t.metainfo['info'] if e[1] == 'info' else t.metainfo)['x-nested'] = _copy.deepcopy(NESTED)
+        return t
     if op in ('update-info', 'sync-info', 'assign-info', 'assign-metainfo'):
         d = _copy.deepcopy(docs[e[1]])
         if op == 'assign-metainfo':
@@ -1072,7 +1401,7 @@ def _run_history_chunk(cases):
             if mag['xl'] is not None:
                 kw['xl'] = mag['xl']
             obs = {'base16': h16, 'stages': []}
-            env = {'dir': os.path.join(common.worker_dir(), 'c06h-%d-%d' % (os.getpid(), ci)), 'n': 0}
+            env = {'dir': os.path.join(common.worker_dir(), 'c06h-%d-%d' % (os.getpid(), ci)), 'n': 0, 'log': []}
             try:
                 origin = c.get('origin', 'magnet')
                 if origin != 'magnet':
@@ -1103,10 +1432,11 @@ def _run_history_chunk(cases):
                 signal.alarm(HISTORY_TIMEOUT)
                 for si, st in enumerate(c['stages']):
                     so = {'edit_errors': [], 'copy': False}
+                    env['log'] = []
                     for e in st['edits']:
                         try:
                             t = _apply_edit(torf, t, e, docs, env)
-                            so['copy'] = so['copy'] or e[0] == 'copy'
+                            so['copy'] = so['copy'] or e[0] in ('copy', 'fork')
                         except Exception as ex:  # noqa   a refused edit is no export; the history goes on
                             so['edit_errors'].append([e[0], type(ex).__name__])
                     def segment(changed_by=None):
@@ -1118,7 +1448,17 @@ def _run_history_chunk(cases):
                             seg['vok'] = True
                         except Exception:  # noqa
                             seg['vok'] = False
-                        seg['min_ok'] = 'ok' in _attempt(lambda: t.magnet(name=False, size=False, trackers=False).xt)
+                        mr = _attempt(lambda: t.magnet(name=False, size=False, trackers=False).xt)
+                        # 'ok', or the kind of error: the reduced link still carries the webseeds, so it can fail on a
+                        # url-list that is no list of URLs (not validated: C07's open finding D07i), not only on the hash
+                        seg['min_ok'] = 'ok' in mr or mr['err'] not in ('metainfo', 'magnet')
+                        # precondition of C07's open finding D07f (validate() raises TypeError from os.path.join): a content
+                        # path is set and a file entry's path is empty, no list or has a bytes component
+                        info = t.metainfo['info']
+                        fl = info.get('files') if isinstance(info, dict) else None
+                        seg['d07f'] = bool(t.path is not None and isinstance(fl, (list, tuple)) and any(
+                            isinstance(f, dict) and (not isinstance(f.get('path'), (list, tuple)) or not f.get('path')
+                                                     or any(isinstance(q, bytes) for q in f.get('path'))) for f in fl))
                         return seg
                     so['segments'] = [segment()]
 
@@ -1150,6 +1490,12 @@ def _run_history_chunk(cases):
                             # returned is judged against the object as it is when the call returns
                             so['segments'].append(segment(changed_by=name))
                         so['results'].append([name, r, len(so['segments']) - 1])
+                    so['realised'] = env['log']
+                    if env.get('other'):
+                        # the object the history forked from: nobody has touched it since
+                        oth = env['other']
+                        so['other'] = {'dump_nv_then': oth['dump_nv'], 'dump_nv_now': _attempt(lambda: oth['obj'].dump(validate=False).hex()),
+                                       'metainfo_same': pyval.to_json(plain(oth['obj'].metainfo)) == oth['mjson']}
                     obs['stages'].append(so)
             except _Timeout:
                 obs = {'timeout': True, 'stages_done': len(obs['stages'])}
@@ -1211,7 +1557,11 @@ def _history_py_stages(c):
                    'set-top': "t.metainfo[%r] = %s" % (a, v), 'del-top': "t.metainfo.pop(%r, None)" % a,
                    'attr': "t.%s = %s" % (a, v), 'generate': 't.path = <content %s>; t.generate()' % (a,),
                    'regenerate': 't.generate()', 'path-none': 't.path = None',
-                   'touch-content': '<one content file grows by a byte>'}
+                   'touch-content': '<one content file grows by a byte>',
+                   'inplace': 'IN PLACE: one %s step on a nested container of the metainfo (selector %s)' % ('list / dict edit', a),
+                   'alias': 'ALIAS: an existing nested object placed at a second position (selector %s)' % (a,),
+                   'nest': "t.metainfo%s['x-nested'] = [['a', 'b'], {'k': ['v', 1], 'm': {'deep': [b'x']}}, [{'in-list': 'd'}]]" % ("['info']" if a == 'info' else ''),
+                   'fork': 'other = t; t = t.copy()   # the history goes on with the copy, `other` is not touched any more'}
             lines.append(fmt[e[0]])
         lines.append('exports: ' + ', '.join(st['order']))
     return lines
@@ -1256,7 +1606,7 @@ def evaluate_history(ctx, drv, cases):
     # that returned in it
     for c, o in pairs:
         o['units'] = [{'stage': si, 'seg': gi, 'copy': so['copy'] and gi == 0, 'mjson': seg['mjson'], 'vok': seg['vok'],
-                       'min_ok': seg['min_ok'], 'changed_by': seg['changed_by'], 'order': c['stages'][si]['order'],
+                       'min_ok': seg['min_ok'], 'd07f': seg.get('d07f', False), 'changed_by': seg['changed_by'], 'order': c['stages'][si]['order'],
                        'results': [[n, r] for n, r, g in so['results'] if g == gi]}
                       for si, so in enumerate(o['stages']) for gi, seg in enumerate(so['segments'])]
     for c, o in pairs:
@@ -1299,15 +1649,34 @@ def evaluate_history(ctx, drv, cases):
                                                'object has a stored hash' if stored else 'no stored hash')] += 1
             if u['changed_by']:
                 ctx.dist['history-state/reached by an export that changed the metainfo: ' + u['changed_by']] += 1
+            so_ = o['stages'][u['stage']]
+            if u['seg'] == 0 and so_.get('other') and so_['other']['dump_nv_now'] != so_['other']['dump_nv_then']:
+                ctx.violation('a Torrent object that nobody touched exports differently after its copy() was edited: what copy() '
+                              'returns shares state with the original [stage %d of the history]' % u['stage'],
+                              dict(case, failing_stage=u['stage']), 'copy() gives an independent object: the bytes the original '
+                              'dumps (and with them the hash it reports) only change when the original is edited',
+                              {'dump(validate=False) of the original at the fork': _short(so_['other']['dump_nv_then'], 300),
+                               'now': _short(so_['other']['dump_nv_now'], 300), 'its metainfo is unchanged': so_['other']['metainfo_same'],
+                               'edits of the copy in this stage': so_.get('realised')}, finding_matchers=MATCHERS)
+                failed = True
+                break
+            for a_ in (so_.get('realised') or []) if u['seg'] == 0 else []:
+                ctx.dist['history-edit/' + ('alias: one object at two positions' if '# the same' in a_ else 'in place: ' + a_.rsplit(': ', 1)[-1])] += 1
             where = ' [stage %d of the history%s; exports in this order: %s]' % (
                 u['stage'], ', after %s() changed the metainfo' % u['changed_by'] if u['changed_by'] else '', ', '.join(u['order']))
             ucase = dict(case, failing_stage=u['stage'], changed_by=u['changed_by'])
+            if u['d07f']:
+                # a state in which validate() is known to raise TypeError instead of MetainfoError (C07, open finding D07f):
+                # every export raises it; nothing is reported or written that C06 could judge.  Counted, never silent.
+                ctx.dist['history-state/outside: C07 finding D07f (content path set, file path empty / bytes component)'] += 1
+                continue
             # ---------------- the property on what the implementation did (implementation vs specification)
             bad = None
             # the full magnet link may be unavailable for a reason unrelated to the hash (a URL or a size the Magnet class
             # refuses: C07/C13 matters): tolerated and counted if the error is no MetainfoError and - for a MagnetError -
             # the link reduced to the hash (magnet_min) can be built in this state.  magnet_min may only raise MetainfoError.
-            unrelated = [(n, e) for n, e in errs if n in ('magnet', 'magnet_str') and e != 'metainfo' and (e != 'magnet' or u['min_ok'])]
+            unrelated = [(n, e) for n, e in errs if n in ('magnet', 'magnet_str', 'magnet_min') and e != 'metainfo'
+                         and (e != 'magnet' or (u['min_ok'] and n != 'magnet_min'))]
             for n, e in unrelated:
                 ctx.dist['magnet-unavailable:' + e] += 1
             errs = [x for x in errs if x not in unrelated]
@@ -1340,7 +1709,7 @@ def evaluate_history(ctx, drv, cases):
                         wrong = [(n, x) for n, x in digests if x != d]
                         if wrong:
                             bad = ('the reported infohash is not the SHA-1 of the info span of the bytes that were written'
-                                   + (' (it is the hash of the magnet link the object was created from)'
+                                   + (' (it equals the hash of the magnet link the object was created from)'
                                       if all(x == o['base16'] for _, x in wrong) else ''),
                                    {'sha1(info span of %s)' % written[0][0]: d, 'reported': digests,
                                     'hash of the magnet link': o['base16'], 'info span': y[a:b][:300]})
@@ -1357,6 +1726,7 @@ def evaluate_history(ctx, drv, cases):
                     'a stored hash may only be reported while the hash cannot be calculated (C06_explicit_iff)',
                     {'detail': bad[1], 'metainfo in this state': _short(u['mjson'], 600), 'validate() accepts': u['vok'],
                      'stored hash (model)': m['explicit'], 'the export changed': u.get('change'),
+                     'edits in place realised in this stage': so_.get('realised'),
                      'results': [[n, _short(r, 160)] for n, r in res]},
                     finding_matchers=MATCHERS)
                 if not known:
@@ -1379,6 +1749,8 @@ def evaluate_history(ctx, drv, cases):
             # ---------------- correspondence: the model's exports and reports are the implementation's
             names = {'dump': 'dump', 'dump_nv': 'dump_nv', 'infohash': 'infohash', 'b32': 'b32', 'xt': 'magnet_min'}
             impl = {k: next((r for n, r in res if n == v), None) for k, v in names.items()}
+            if impl['xt'] is not None and impl['xt'].get('err', 'metainfo') not in ('metainfo', 'magnet'):
+                impl['xt'] = None                  # the reduced link failed on the webseeds (counted above), not on the hash
             model = {'dump': m['dumpT'], 'dump_nv': m['dumpF'], 'infohash': m['infohash'], 'b32': m['b32'], 'xt': m['xt']}
             diff = [k for k in model if impl[k] is not None and impl[k] != model[k]]
             if diff:
